@@ -11,7 +11,7 @@
    F-sat class) and "no claim makes another user's rightful claim fail"; both are covered by the correspondence only.
    Statements only. *)
 From MD.Model Require Import Base Ownable Epoch PoolMath Types PoolManager FarmManager Chain.
-From MD.Proofs Require Import WeightProofs FarmProofs RewardProofs FarmCustody FarmCustodyChain BankProofs TxFarm EmissionBound.
+From MD.Proofs Require Import WeightProofs FarmProofs RewardProofs FarmCustody FarmCustodyChain BankProofs TxFarm EmissionBound Reconcile.
 
 (* over ALL histories (any users, any interleaving, rejected operations, injected faults): the recorded payouts of
    every farm of every reachable world stay within what the farm was funded with; together with C05 (the farm manager's
@@ -83,6 +83,16 @@ Theorem C06_emission_bound_over_epochs : forall rate (epochs : list (Z * list Z)
   zsum (map (fun tw => zsum (map (fun w => rate * w / fst tw) (snd tw))) epochs) <= rate * Z.of_nat (List.length epochs).
 Proof. exact emission_bound_over_epochs. Qed.
 
+(* "No user is paid for an epoch before their position's weight took effect": every reward entry for an epoch before the
+   user's first weight entry for the LP denom is zero (and position changes are recorded for the epoch after the operation,
+   C10_changes_take_effect_next_epoch). The known findings F-until / F-first-epoch are about what a claim's synchronisation
+   later does to that first entry, not about this computation. *)
+Theorem C06_no_reward_before_the_first_weight_entry : forall s f lp recv until lc rs e0 x0,
+  farm_rewards s f lp recv until lc = Ok rs ->
+  w_earliest (fm_weights s) recv lp = Some (e0, x0) ->
+  forall e r, In (e, r) rs -> e < e0 -> r = 0.
+Proof. exact no_reward_before_first_entry. Qed.
+
 Print Assumptions C06_every_reward_within_budget_and_after_cursor.
 Print Assumptions C06_claimed_amount_bounded.
 Print Assumptions C06_no_epoch_paid_twice.
@@ -90,3 +100,4 @@ Print Assumptions C06_payouts_never_exceed_funding_in_any_reachable_world.
 Print Assumptions C06_claim_transaction_pays_exactly_what_rewards_quotes.
 Print Assumptions C06_epoch_emission_bound.
 Print Assumptions C06_emission_bound_over_epochs.
+Print Assumptions C06_no_reward_before_the_first_weight_entry.
